@@ -313,6 +313,30 @@ def build() -> Check:
                       f"`except {ast.unparse(h.type) if h.type else ''}` (line {h.lineno}) wakes the thread blocked in execute() without storing the exception for it first: "
                       "execute() finds no fatal error and goes on to suspend or to build a result", where=f"line {h.lineno}", cell=f"{ast.unparse(h.type) if h.type else 'bare'}")
 
+    # ... and the timer thread may DROP an error only when execute() is already on its way out (the completion event is set: the pool was shut down under a
+    # resubmission in flight). An arm of a handler that neither re-raises nor wakes the waiter sits under exactly that test, the right way round.
+    for h in [n for n in ast.walk(resub.node) if isinstance(n, ast.ExceptHandler)]:
+        def arms(body, cond):
+            # leaf blocks of the handler with the chain of (test text, polarity) they sit under
+            out_ = []
+            ifs_here = [st for st in body if isinstance(st, ast.If)]
+            if not ifs_here:
+                return [(body, cond)]
+            for st in ifs_here:
+                out_ += arms(st.body, cond + [(ast.unparse(st.test), True)])
+                out_ += arms(st.orelse, cond + [(ast.unparse(st.test), False)]) if st.orelse else [([], cond + [(ast.unparse(st.test), False)])]
+            return out_
+        for blk, cond in arms(h.body, []):
+            txt_ = ast.unparse(ast.Module(body=blk, type_ignores=[])) if blk else ""
+            routes_ = "_completion_event.set()" in txt_ or any(isinstance(x, ast.Raise) for st in blk for x in ast.walk(st)) or any(isinstance(st, ast.Return) and not blk[:-1] for st in blk[-1:])
+            if routes_:
+                continue
+            justified = any((t_.replace(" ", "") == "self._completion_event.is_set()" and pol) or (t_.replace(" ", "") == "notself._completion_event.is_set()" and not pol)
+                            for t_, pol in cond)
+            ck.ob("R4.timer-drops-an-error-only-on-the-way-out", fn_construct(resub), justified,
+                  f"`except {ast.unparse(h.type) if h.type else ''}` (line {h.lineno}) has an arm (under {cond or 'no test'}) that neither wakes the waiter nor re-raises: the branch "
+                  "that could not be resubmitted is silently abandoned while execute() keeps waiting for it", where=f"line {h.lineno}", cell=str(cond)[:60])
+
     # whatever the two thread roots record must be re-raised by the thread blocked in execute()
     recorded = set()
     for f in (fn, resub):
